@@ -278,6 +278,59 @@ Theorem C02_tick_char : forall ops now, Forall op_in_range (untimed ops) ->
   orphaner_tick_breaks t now = true <-> old_count_threshold < N.of_nat (List.length (old_ids t now)).
 Proof. exact tick_char. Qed.
 
+(* ---- deepening round 3 ---- *)
+(* No false alarm under the runner's skew, event by event: [skew tr obs] = obs is tr with ESub events
+   moved earlier and EDone events moved later by any number of adjacent swaps.  Whatever history
+   passes the event checks of the acceptor still passes them after such a skew ... *)
+Theorem C02_skew_accepts : forall l l', skew l l' -> forall a af, acc_run a l = Some af ->
+  exists bf, acc_run a l' = Some bf.
+Proof. exact skew_accepts_ex. Qed.
+
+(* ... hence the skewed observation of EVERY run of the connection model is accepted event by event
+   (no `viol` on a correct connection whatever the stamping skew).  Not covered: the final clause
+   that justifies an UnableToAllocStreamId by positions (a `diff`-level clause). *)
+Theorem C02_trace_skew_accepts : forall ls s obs, run conn_init ls = Some s ->
+  skew (obs_run conn_init ls) obs -> exists a, acc_run acc_init obs = Some a.
+Proof. exact trace_skew_accepts. Qed.
+
+(* a skewed history is an observation in the sense of C02_trace_skew *)
+Theorem C02_skew_observes : forall l l', skew l l' -> observes l l'.
+Proof. exact skew_observes. Qed.
+
+(* the bracket acceptor of the timed tie: if the real clock readings lie inside the runner's
+   brackets (orphanings between the stamps, read later in [lo] and earlier in [hi]; counts the other
+   way round) the real results lie between the driver's two model runs: every other result equal,
+   every count between the two counts *)
+Theorem C02_bracket_accepts : forall lo re hi, same_ops lo re -> same_ops re hi ->
+  stamps_le lo re -> stamps_le re hi -> Forall op_in_range (untimed re) ->
+  Forall2 res_le (snd (th_run th_new lo)) (snd (th_run th_new re)) /\
+  Forall2 res_le (snd (th_run th_new re)) (snd (th_run th_new hi)).
+Proof. exact bracket_accepts. Qed.
+
+(* after ANY operation sequence (request ids and tokens may repeat; lookups < 32768) an allocation
+   never fires the assert and never returns an id that still has a handler, is in the orphanage
+   (abandoned, answer still owed) or is the target of a request_to_stream entry *)
+Theorem C02_alloc_fresh_always : forall ops rid tok, Forall op_in_range ops ->
+  let m := fst (hm_run hm_new ops) in
+  snd (hm_allocate m rid tok) <> AllocPanic /\
+  forall sid, snd (hm_allocate m rid tok) = AllocOk sid ->
+    sid < nids /\ used (hm_words m) sid = false /\ mget sid (hm_handlers m) = None /\
+    smem sid (hm_orphans m) = false /\
+    (forall r, mget r (hm_r2s m) <> Some sid).
+Proof. exact alloc_fresh_always. Qed.
+
+(* old_ids without the truncated subtraction: for now >= 1 s an id is old iff it was orphaned more
+   than 1 s ago (or exactly 1 s ago and is not 32767); for now < 1 s (no real clock) iff it was
+   orphaned at clock 0 and is not 32767 *)
+Theorem C02_old_ids_age : forall ops now sid, Forall op_in_range (untimed ops) ->
+  let t := fst (th_run th_new ops) in
+  In sid (old_ids t now) <->
+  exists since, orphaned_since t sid = Some since /\
+    if old_age_ns <=? now
+    then since + old_age_ns < now \/ (since + old_age_ns = now /\ sid < 32767)
+    else since = 0 /\ sid < 32767.
+Proof. exact old_ids_age. Qed.
+
 (* ---- the frame reader on the byte stream (part 6; [parse_frame] = C10's model of
    read_response_frame) ---- exactly 9 + `length` bytes per frame, for any length *)
 Theorem C02_reader_exact : forall f rest, frame_wf f ->
@@ -436,6 +489,18 @@ Example C02_ex_old_ids :
   orphaned_since t 1 = Some 7 /\ orphaned_since t 2 = None /\ th_old_orphans_count t (7 + old_age_ns) = 2.
 Proof. vm_compute. repeat split; reflexivity. Qed.
 
+(* a skew: request 2 submitted "earlier", outcome of request 1 reported "later"; both histories pass *)
+Example C02_ex_skew :
+  skew [ESub 1; EIn 0 1; ESub 2; EOut 0 1; EDone 1 (ORows 1); EIn 0 2]
+       [ESub 1; ESub 2; EIn 0 1; EOut 0 1; EIn 0 2; EDone 1 (ORows 1)] /\
+  c02_trace_ok [ESub 1; EIn 0 1; ESub 2; EOut 0 1; EDone 1 (ORows 1); EIn 0 2] = true /\
+  c02_trace_ok [ESub 1; ESub 2; EIn 0 1; EOut 0 1; EIn 0 2; EDone 1 (ORows 1)] = true.
+Proof.
+  split; [|split; vm_compute; reflexivity].
+  eapply skew_trans; [exact (skew_sub [ESub 1] (EIn 0 1) 2 [EOut 0 1; EDone 1 (ORows 1); EIn 0 2])|].
+  exact (skew_done [ESub 1; ESub 2; EIn 0 1; EOut 0 1] 1 (ORows 1) (EIn 0 2) []).
+Qed.
+
 Print Assumptions C02_bitmap_alloc.
 Print Assumptions C02_bitmap_full.
 Print Assumptions C02_bitmap_free.
@@ -476,3 +541,9 @@ Print Assumptions C02_sm_no_share.
 Print Assumptions C02_sm_delivery.
 Print Assumptions C02_old_count_char.
 Print Assumptions C02_tick_char.
+Print Assumptions C02_skew_accepts.
+Print Assumptions C02_trace_skew_accepts.
+Print Assumptions C02_skew_observes.
+Print Assumptions C02_bracket_accepts.
+Print Assumptions C02_alloc_fresh_always.
+Print Assumptions C02_old_ids_age.
